@@ -35,7 +35,7 @@ func init() {
 		Rule: "exhaustive: a skeleton document with every position ResolveRefsIn, the ten resolvers and resolveContentRefs/resolveExampleRefs visit (table WalkSites: the nine component " +
 			"collections incl. links, response headers/links, examples of parameters, headers and media types, content of parameters and headers, encoding headers, schemas, callbacks, path items, " +
 			"operations) × 16 reference spellings (relative, ./, ../ escape, sub-directory, absolute, file://, http, https, " +
-			"scheme-relative, same path as the root on another host, whole-file and fragment forms, missing target) × 3 entry points × both switch settings (quick: a quarter of the grid); " +
+			"scheme-relative, same path as the root on another host, whole-file and fragment forms, missing target) × 3 entry points × both switch settings (quick: a sixth of the grid); " +
 			"enumerated families: $ref path items whose target is itself a $ref (target resolved / sorting later / in progress), a reference text in progress for one kind and met under another kind " +
 			"(6 shapes × every sub-position), targets only the raw re-read reaches; hand-made cross-document shapes (corpus) and a seeded random stream of multi-file universes " +
 			"(element files are also read through references of other kinds). Every case is loaded twice: recording reader directly and behind openapi3.URIMapCache. " +
@@ -1306,6 +1306,20 @@ func c11Handmade() map[string]hx.Case {
 		c11Doc("/r/a/root.json", kid(c11NewEl("callback", "b/cb.json"), "components", "callbacks", "H"), kid(c11NewEl("callback", "#/components/callbacks/H"), "components", "callbacks", "R")),
 		c11Elem("/r/a/b/cb.json", "callback", kid(c11NewEl("pathItem", "e.json"), "evt")),
 		c11Elem("/r/a/b/e.json", "header"), c11Elem("/r/a/e.json", "pathItem"))
+	// histories on one Loader: a located load, then LoadFromData of a document with a dangling '#'-reference (the raw re-read
+	// has no location to read: nothing may be read, least of all the first load's file); the same file twice; a second
+	// document that refers into the one loaded (and resolved) before
+	{
+		a := c11Doc("/r/a/root.json", kid(c11NewEl("schema", "s.json"), "components", "schemas", "S"))
+		b := c11Doc("/r/m/mem.json", kid(c11NewEl("schema", "#/components/schemas/Nope"), "components", "schemas", "X"))
+		b2 := c11Doc("/r/m/mem2.json", kid(c11NewEl("schema", "/r/a/root.json#/components/schemas/S"), "components", "schemas", "X"), kid(c11NewEl("schema", "s.json"), "components", "schemas", "Y"))
+		fs := []any{a, b, b2, c11Elem("/r/a/s.json", "schema"), c11Elem("/r/m/s.json", "schema"), c11Elem("s.json", "schema")}
+		for _, al := range []bool{false, true} {
+			out[fmt.Sprintf("history_file_then_data_dangling_%v", al)] = c11HistCase(fs, c11Step("file", "/r/a/root.json", al), c11Step("data", "/r/m/mem.json", al))
+			out[fmt.Sprintf("history_same_file_twice_%v", al)] = c11HistCase(fs, c11Step("file", "/r/a/root.json", al), c11Step("file", "/r/a/root.json", al), c11Step("dataWithPath", "/r/a/root.json", al))
+		}
+		out["history_second_refers_into_first"] = c11HistCase(fs, c11Step("file", "/r/a/root.json", true), c11Step("data", "/r/m/mem2.json", true), c11Step("dataWithPath", "/r/m/mem2.json", true))
+	}
 	out["dangling_hash_ref_reread_off"] = mk(false, "file",
 		c11Doc("/r/a/root.json", kid(c11NewEl("schema", "#/components/schemas/Nope"), "components", "schemas", "A")))
 	return out
@@ -1345,8 +1359,8 @@ func genC11(ctx *hx.Ctx, emit func(hx.Case)) {
 		for si, sp := range spellings {
 			for ei, entry := range entries {
 				for _, allowed := range []bool{false, true} {
-					if !ctx.Thorough() && (pi+si+ei)%4 != 0 && !(allowed == false && sp.fragment && si >= 12 && si < 16) {
-						continue // quick tier: a quarter of the grid (all of the remote fragment spellings with the switch off)
+					if !ctx.Thorough() && (pi+si+ei)%6 != 0 && !(allowed == false && sp.fragment && si >= 12 && si < 16) {
+						continue // quick tier: a sixth of the grid (all of the remote fragment spellings with the switch off)
 					}
 					root := c11_deepCopy(skel).(map[string]any)
 					var text string
@@ -1395,7 +1409,7 @@ func genC11(ctx *hx.Ctx, emit func(hx.Case)) {
 	c11GenHistories(ctx, emit)
 	c11GenOtherKind(ctx, emit)
 	// random stream
-	n := 2200
+	n := 2000
 	if ctx.Thorough() {
 		n = 30000
 	}
